@@ -192,7 +192,8 @@ impl Directive {
                     .name("fields")
                     .map(|c| {
                         FIELD_FILTER_RE
-                            .find_iter(c.as_str())
+                            .captures_iter(c.as_str())
+                            .filter_map(|c| c.get(1))
                             .map(|c| field::Match::parse(c.as_str(), regex))
                             .collect::<Result<Vec<_>, _>>()
                     })
